@@ -145,7 +145,7 @@ static void PotOp(TempResult* pErg, TempResult* pLVal, TempResult* pRVal) {
                 Base *= Base;
                 HVal >>= 1;
             }
-            as_tempres_set_float(pErg, Base);
+            as_tempres_set_float(pErg, Result);
         } else {
             WrError(ErrNum_InvArgPair);
             pErg->Typ = TempNone;
